@@ -103,6 +103,12 @@ func deepDM(n int) cbor.DecMode {
 	return m
 }
 
+// every member optional: "null" and "{}" leave it empty
+type popAllOptional struct {
+	A *int64  `cbor:"1,keyasint,omitempty" json:"a,omitempty"`
+	B *string `cbor:"2,keyasint,omitempty" json:"b,omitempty"`
+}
+
 type decodeEntry struct {
 	name string
 	json bool
@@ -182,6 +188,14 @@ func followUp(v any) {
 	case *popFlat, *popEmb1, *popEmb2, *popIfaceEmb:
 		_, _ = encoding.SerializeStructToCBOR(extEM, x)
 		_, _ = encoding.SerializeStructToJSON(x)
+		one, str := int64(1), "s"
+		_, _ = encoding.SerializeStructToJSON(&popAllOptional{B: &str, A: &one})
+		_, _ = encoding.SerializeStructToCBOR(extEM, &popAllOptional{B: &str, A: &one})
+	case *popAllOptional:
+		_, _ = encoding.SerializeStructToJSON(x)
+		one, str := int64(1), "s"
+		_, _ = encoding.SerializeStructToJSON(&popAllOptional{B: &str, A: &one})
+		_, _ = encoding.SerializeStructToCBOR(extEM, &popAllOptional{B: &str, A: &one})
 	}
 }
 
@@ -235,6 +249,10 @@ func decodeEntries() []decodeEntry {
 		{"PopulateStructFromCBOR(embedded1, decoder nesting limit 65535)", false, func(in []byte) (any, error) {
 			d := &popEmb1{}
 			return d, encoding.PopulateStructFromCBOR(deepDM(65535), in, d)
+		}},
+		{"PopulateStructFromCBOR(all-optional)", false, func(in []byte) (any, error) {
+			d := &popAllOptional{}
+			return d, encoding.PopulateStructFromCBOR(extDM, in, d)
 		}},
 		{"PopulateStructFromCBOR(two types of the same name)", false, func(in []byte) (any, error) {
 			_ = encoding.PopulateStructFromCBOR(extDM, in, popTwinLarge())
@@ -297,6 +315,10 @@ func decodeEntries() []decodeEntry {
 			c := &psatoken.SwComponents[MapComp]{}
 			err := c.UnmarshalJSON(in)
 			return c, err
+		}},
+		{"PopulateStructFromJSON(all-optional)", true, func(in []byte) (any, error) {
+			d := &popAllOptional{}
+			return d, encoding.PopulateStructFromJSON(in, d)
 		}},
 		{"PopulateStructFromJSON(two types of the same name)", true, func(in []byte) (any, error) {
 			_ = encoding.PopulateStructFromJSON(in, popTwinLarge())
@@ -495,6 +517,9 @@ func decodeSeeds() []decodeSeed {
 		payload := mcbor.Encode(wireTree(cl[0], true))
 		env := mcbor.Tg(18, mcbor.A(mcbor.B(protHeader("ES256")), mcbor.M(mcbor.U(4), mcbor.B([]byte("kid")), mcbor.U(1), mcbor.I(-7), mcbor.U(3), mcbor.T("application/eat")), mcbor.B(payload), mcbor.B(pat(64, 0xa0))))
 		out = append(out, decodeSeed{"envelope-unprotected-header", false, mcbor.Encode(env), env})
+		protFull := mcbor.Encode(mcbor.M(mcbor.U(1), mcbor.I(-7), mcbor.U(3), mcbor.T("application/eat+cwt"), mcbor.U(4), mcbor.B([]byte("kid")), mcbor.U(2), mcbor.A(mcbor.U(3))))
+		env2 := mcbor.Tg(18, mcbor.A(mcbor.B(protFull), mcbor.M(mcbor.U(5), mcbor.B(pat(8, 1))), mcbor.B(payload), mcbor.B(pat(64, 0xa0))))
+		out = append(out, decodeSeed{"envelope-populated-protected-header", false, mcbor.Encode(env2), env2})
 	}
 	{
 		// a derived profile whose identifiers have other lengths (17-byte instance id, 16-byte implementation id)
@@ -528,6 +553,7 @@ func replacementNodes(self *mcbor.Node) []*mcbor.Node {
 		mcbor.Null(), mcbor.Undef(), mcbor.Bool(true), mcbor.U(0), mcbor.I(-1), mcbor.U(1<<64 - 1), mcbor.N(1<<64 - 1), mcbor.F(1.5, 2),
 		mcbor.B(nil), mcbor.B([]byte{0}), mcbor.T(""), mcbor.T("a"), mcbor.A(), mcbor.A(mcbor.Null()), mcbor.M(), mcbor.M(mcbor.U(0), mcbor.Null()),
 		mcbor.Tg(0, self.Clone()), mcbor.Tg(18, self.Clone()), mcbor.B(mcbor.Encode(self)), mcbor.A(self.Clone()), mcbor.RawBytes([]byte{0xff}), mcbor.S(255),
+		mcbor.T("https://:8443/v1"), mcbor.T("http://\u023a\u023a\u023a/"), mcbor.T("HTTP://\u023a\u023e./\u0130"),
 	}
 }
 
@@ -629,7 +655,7 @@ func jsonSites(v any, prefix []string, out *[][]string) {
 	}
 }
 
-var jsonRepl = []string{`null`, `true`, `0`, `-1`, `1.5`, `1e400`, `18446744073709551616`, `""`, `"a"`, `"AQ"`, `[]`, `[null]`, `{}`, `{"a":null}`, `"\ud800"`, `[[[[[]]]]]`}
+var jsonRepl = []string{`null`, `true`, `0`, `-1`, `1.5`, `1e400`, `18446744073709551616`, `""`, `"a"`, `"AQ"`, `[]`, `[null]`, `{}`, `{"a":null}`, `"\ud800"`, `[[[[[]]]]]`, `"https://:8443/v1"`, `"http://\u023a\u023a\u023a/"`, `1e1000000`, `-1E-1000000`, `0.1e1000001`}
 
 // jsonMutate renders doc with the value at path replaced (mode 0), deleted (1) or its member duplicated (2).
 func jsonMutate(v any, path []string, mode, repl int) []byte {
